@@ -266,6 +266,22 @@ def run(ctx, params):
             emlkit.discard(t)
         for i in range(params["mutated"]):
             t, log = anytrees.valid_mutated(rng, gen, rng.choice([5, 15, 40, 100]), rng.randint(0, 6))
+            if i % 6 == 1:
+                t2 = anytrees.with_repeated_ids(rng, t)
+                emlkit.discard(t)
+                t, log = t2, log + ["ids repeated along paths and across branches"]
+                ctx.count("trees_with_repeated_id_strings")
+            elif i % 6 == 2:
+                # nodes with a past: taken out of one parent (which keeps same-named siblings) and put elsewhere by editing the
+                # children list, so that their parent link is stale
+                nodes_ = treegen.all_nodes(t)
+                movable = [x for x in nodes_ if x.parent is not None and sum(1 for c in x.parent.children if c.name == x.name) >= 2]
+                for x in rng.sample(movable, min(2, len(movable))):
+                    x.parent.remove_child(x)
+                    host = rng.choice([h for h in treegen.all_nodes(t) if h is not x and h not in treegen.all_nodes(x)])
+                    host.children.insert(rng.randint(0, len(host.children)), x)
+                    log = log + ["moved with a stale parent link"]
+                    ctx.count("nodes_with_stale_parent_link")
             ff, errs = judge_tree(ctx, t, "valid+mutations", log)
             if rng.random() < 0.3:
                 edited_in_place(ctx, t, "valid+mutations", log)
@@ -316,14 +332,14 @@ def replay(ctx, witness):
         ctx.distinct(2)
         return
     if "before" in witness:
-        t = snapshot.from_plain(Node, witness["before"])
+        t = snapshot.from_plain(Node, witness["before"], fresh_ids=False)
         judge_tree(ctx, t, "replay", all_nodes=True)
         treegen.apply_edits(t, witness["edits"])
         judge_tree(ctx, t, "replay+edited-in-place", all_nodes=True)
         ctx.distinct(1)
         ctx.distinct(2)
         return
-    t = snapshot.from_plain(Node, witness["tree"])
+    t = snapshot.from_plain(Node, witness["tree"], fresh_ids=False)
     if witness.get("node_only"):
         call_both(ctx, mvalidate.node, "validate.node", t, lambda: witness)
         ctx.evaluated(2)
